@@ -267,9 +267,9 @@ def extra_cfgs(tier):
             return {'k': v}
         return {'kind': 'seq', 'build': build, 'symbolize': symbolize}
 
-    def seq_cfg(w, n, once):
+    def seq_cfg(w, n, once, bidir=False):
         def build(s):
-            r = s.wire('r', w)
+            r = s.bidir_wire('r', w) if bidir else s.wire('r', w)
             Sequence(s, 'seq', [0] * n, r, once=once)
             return {'ins': {}, 'regs': {}, 'mems': {}}
 
@@ -342,9 +342,9 @@ def extra_cfgs(tier):
             return {'ins': ins}
         return {'kind': 'seq', 'build': build}
 
-    def regrv_cfg(w):
+    def regrv_cfg(w, bidir=False):
         def build(s):
-            d, q, r = s.wire('d', w + 2), s.wire('q', w), s.wire('r', 1)
+            d, q, r = s.wire('d', w + 2), (s.bidir_wire('q', w) if bidir else s.wire('q', w)), s.wire('r', 1)
             leaf = Reg(s, 'reg', d, q, reset=r, reset_value=0)
             return {'ins': {'d': d, 'r': r}, 'regs': {'reg': leaf}}
 
@@ -373,6 +373,10 @@ def extra_cfgs(tier):
     for dual in (False, True):
         for wdw, rdw in (((8, 4), (3, 3)) if quick else ((8, 4), (3, 3), (4, 8), (2, 1), (16, 8))):
             yield '%sSynchronousMemory written word %d bits, read port %d bits' % ('DualPort' if dual else '', wdw, rdw), mem_cfg(dual, wdw, rdw)
+    # clocked drivers of a bidirectional net (hw.bidir_wire): the same range must hold there
+    for w in ([1, 4] if quick else [1, 2, 4, 8, 16]):
+        yield 'Sequence(symbolic any-sign values) onto a bidirectional wire w%d n3' % w, seq_cfg(w, 3, False, bidir=True)
+        yield 'Reg(symbolic any-sign reset_value, wider d) onto a bidirectional wire w%d' % w, regrv_cfg(w, bidir=True)
     for w in ([1, 3, 8] if quick else [1, 2, 3, 4, 8, 16, 32]):
         yield 'Constant(symbolic any-sign value)+Not w%d' % w, const_cfg(w)
         yield 'Reg(symbolic any-sign reset_value, wider d) w%d' % w, regrv_cfg(w)
